@@ -7,7 +7,9 @@ TIER = os.environ.get("VERIF_TIER", "quick")
 Q = TIER == "quick"
 
 A_REGIME = ["numpy 2.5.3 semantics as transcribed in spec/abs/NpVal.tla and PySeq.tla (calibrated by ./check selftest)",
-            "32/64-bit integer arithmetic explored in the no-overflow regime; floats restricted to small dyadic rationals",
+            "TLC integers are 32-bit: 64-bit (32-bit) extremes are reached by executing 16-bit cases in the top 16 bits of the wide dtypes (high-bits realisation) "
+            "and by 16-bit limbs for value-moving operations and totals; multiplicative 64-bit arithmetic is outside the modelled regime",
+            "floats are small dyadic rationals plus infinities, NaN and negative zero; float16 results are claimed only where float16 holds them exactly",
             "small-scope exhaustive enumeration by TLC plus seeded random cases; larger inputs are sampled"]
 
 
